@@ -121,7 +121,7 @@ def check(run):
                      "leg R: every accepted program of those configurations and of the delimiter alphabet in %d seeded layouts (whitespace strings over space/tab/CR/LF at every token "
                      "boundary, no whitespace next to delimiters) must give the same token kinds/texts and the same tree; the wrapped token strings parsed by the real parser with every "
                      "redundant parenthesis written 1, 2 and 5 times and one seeded pair written 64 times; non-trivial = accepted program" % layouts)
-    run.rules.append("user operators: all ordered pairs over the 28 registered word operators (adjacent and extreme precedences) and 7 built-in representatives in 6 shapes: bare rendering, fully "
+    run.rules.append("(thorough tier) user operators: all ordered pairs over the 28 registered word operators (adjacent and extreme precedences) and 7 built-in representatives in 6 shapes: bare rendering, fully "
                      "parenthesised form and seeded layouts of each must give the specified tree")
     run.rules.append("tight layouts: every accepted program also with white space dropped (a) greedily wherever hook H1 still reports the same tokens and (b) blindly at all / at half of the "
                      "boundaries, where the Lexer SPECIFICATION (TraceLexer on the real tokenizer's report, the specification's own tokens where it disagrees) decides whether the variant is still the same "
@@ -148,9 +148,12 @@ def check(run):
             budget_hits += paren_leg(run, name, wraps, mult, single)
     # user-registered operators at adjacent and extreme precedences: the bare rendering and the fully parenthesised form of every pair sentence, in seeded layouts
     ops_file = os.path.join(tlc.SPEC, "mc", "bigtable.json")
-    res = tlc.run("mc/MCPratt.tla", pf.pratt_cfg("c11-upairs", inv=INV, report="EmitRender", lazy=False, source="UPairSource", firstset="UPairSet", table="BigTable"), workers=16, timeout=2400)
-    run.tlc("M:Parens/user-pairs", res)
-    if res.violation:
+    res = None if not thorough else tlc.run("mc/MCPratt.tla", pf.pratt_cfg("c11-upairs", inv=INV, report="EmitRender", lazy=False, source="UPairSource", firstset="UPairSet", table="BigTable"), workers=16, timeout=2400)
+    if res is not None:
+        run.tlc("M:Parens/user-pairs", res)
+    if res is None:
+        pass
+    elif res.violation:
         run.model_violation("Parens/user-pairs", res)
     else:
         recs = core.tlc_printed_records(res)
